@@ -269,10 +269,12 @@ impl<F: Fn(pipe::SimplexDirection, usize) + Send + Sync> DuplexPipe<F> {
 
         for (meta, id) in expired {
             connections.remove(&meta);
+            // the forwarder expects the peer-to-client orientation, as for a closure
+            // noticed on the receiving side
             self.right_pipe
                 .shared
                 .forwarder_shared
-                .on_connection_closed(&meta);
+                .on_connection_closed(&meta.reversed());
             log_id!(debug, id, "Connection expired: {:?}", meta);
         }
     }
